@@ -19,7 +19,8 @@ func genDescription(t *rapid.T) string {
 	var lines []string
 	for i := 0; i < n; i++ {
 		if i > 0 && i < n-1 && rapid.IntRange(0, 3).Draw(t, fmt.Sprintf("desc.blank%d", i)) == 0 {
-			lines = append(lines, "")
+			// paragraph separators: truly empty, or made of blanks only
+			lines = append(lines, rapid.SampledFrom([]string{"", "", "  ", "\t", " \t "}).Draw(t, fmt.Sprintf("desc.sep%d", i)))
 			continue
 		}
 		lines = append(lines, rapid.SampledFrom(descLines).Draw(t, fmt.Sprintf("desc.line%d", i)))
@@ -149,17 +150,19 @@ func genFullMeta(t *rapid.T, c *BuildCase) {
 		x.ArchPackager = opt("arch.packager", "Arch Packager <a@example.com>")
 	}
 	if rapid.IntRange(0, 3).Draw(t, "archoverride?") == 0 {
+		// an override is used verbatim - also when it happens to be a GOARCH name the table would translate
+		ov := rapid.SampledFrom(append([]string{"custom-arch", "ia64", "noarch"}, docArches...)).Draw(t, "archoverride.value")
 		switch rapid.IntRange(0, 4).Draw(t, "archoverride.which") {
 		case 0:
-			x.DebArch = "customdeb"
+			x.DebArch = ov
 		case 1:
-			x.RPMArch = "ia64"
+			x.RPMArch = ov
 		case 2:
-			x.APKArch = "customapk"
+			x.APKArch = ov
 		case 3:
-			x.ArchArch = "customarch"
+			x.ArchArch = ov
 		case 4:
-			x.IPKArch = "customipk"
+			x.IPKArch = ov
 		}
 	}
 }
